@@ -1,7 +1,7 @@
 (* Proofs/LegalRefuted.v — C04: the statement "whenever compilation succeeds the text is legal" is
    FALSE of the faithful compile model (Comp/Compile.v), hence — each witness is replayed against the
    real compiler by the check — of PyTeal at the pinned commit.  Witnesses ([vm_compute]):
-     w_index   Txn.application_args[300]              -> txna ApplicationArgs 300   (immediate > uint8)
+     w_itxn    InnerTxnBuilder.SetField(TxnField.first_valid, Int(1)) -> itxn_field FirstValid  (never settable)
      w_mode    Global.round() in Signature mode        -> global Round               (Application-only field)
      w_back    a While loop at program version 3       -> b main_l..  backwards      (back branches exist from v4)
    The op tables handed to the model are those of AVM/Syntax.v; the witnesses use no field or op whose
@@ -19,8 +19,11 @@ Definition opts (v : N) (app : bool) : copts := mkOpts v app false false opc_min
 Definition int_ (n : N) : expr := EOp O_int [AInt n] TUint [].
 Definition approve : expr := EExit (int_ 1).
 
-Definition w_index : prog := mkProgram
-  (ESeq [EOp O_pop [] TNone [EOp O_txna [AStr "ApplicationArgs"; AInt 300] TBytes []]; approve]) [] [].
+(* (the former witness Txn.application_args[300] is gone: since /repo 6fb1ed6 the constructor refuses a
+   constant array index above 255, so that recipe no longer denotes a PyTeal program) *)
+Definition w_itxn : prog := mkProgram
+  (ESeq [EOp O_itxn_begin [] TNone []; EOp O_itxn_field [AStr "FirstValid"] TNone [int_ 1];
+         EOp O_itxn_submit [] TNone []; approve]) [] [].
 Definition w_mode : prog := mkProgram (EReturn (Some (EOp O_global_ [AStr "Round"] TUint []))) [] [].
 Definition w_back : prog := mkProgram
   (ESeq [EOp O_pop [] TNone [int_ 0];
@@ -32,10 +35,10 @@ Definition compile_legal (version : N) (app : bool) (p : prog) : Prop :=
   forall lines, compile_model (opts version app) opc_modes p = COk lines ->
                 legal_check version app [] (text_of lines) = LOk.
 
-Lemma compile_legal_refuted_index : ~ compile_legal 6 true w_index.
+Lemma compile_legal_refuted_itxn : ~ compile_legal 6 true w_itxn.
 Proof.
   intros H.
-  destruct (compile_model (opts 6 true) opc_modes w_index) as [lines|e] eqn:E; [|vm_compute in E; discriminate E].
+  destruct (compile_model (opts 6 true) opc_modes w_itxn) as [lines|e] eqn:E; [|vm_compute in E; discriminate E].
   unfold compile_legal in H. pose proof (H lines E) as Hl.
   clear H. vm_compute in E. injection E as <-. vm_compute in Hl. discriminate Hl.
 Qed.
@@ -57,14 +60,14 @@ Proof.
 Qed.
 
 Lemma compile_legal_refuted_lemma : exists version app p, ~ compile_legal version app p.
-Proof. exists 6%N, true, w_index. exact compile_legal_refuted_index. Qed.
+Proof. exists 6%N, false, w_mode. exact compile_legal_refuted_mode. Qed.
 
 (* what the checker says about each witness *)
-Example w_index_verdict :
-  compile_model (opts 6 true) opc_modes w_index =
-    COk ["#pragma version 6"; "txna ApplicationArgs 300"; "pop"; "int 1"; "return"] /\
-  legal_check 6 true [] (text_of ["#pragma version 6"; "txna ApplicationArgs 300"; "pop"; "int 1"; "return"])
-    = LBad "imm-range" 0 "txna 300".
+Example w_itxn_verdict :
+  compile_model (opts 6 true) opc_modes w_itxn =
+    COk ["#pragma version 6"; "itxn_begin"; "int 1"; "itxn_field FirstValid"; "itxn_submit"; "int 1"; "return"] /\
+  legal_check 6 true [] (text_of ["#pragma version 6"; "itxn_begin"; "int 1"; "itxn_field FirstValid"; "itxn_submit"; "int 1"; "return"])
+    = LBad "itxn-field-not-settable" 2 "itxn_field FirstValid".
 Proof. vm_compute. auto. Qed.
 
 Example w_mode_verdict :
